@@ -118,5 +118,13 @@ Allowed(e) ==
                   LET C == e.C[c]
                       num == 2 * SplineNum(C, m \div unit) - SplineNum(C, a \div unit) - SplineNum(C, b \div unit)
                   IN CloseTo(e.errs[j][c], num, 2 * D * D * D, 2 * Tol(MaxAbsP(C)) * NSeg(C))
+    \* ---- growth beyond the listed property (reported as notes by py/c17.py)
+    [] e.op = "smooth" ->
+         \* smoothstep(t) = t^2 (3 - 2t), smootherstep(t) = t^3 (10 + t (6t - 15)) on t = kk/16, clamped outside [0, 1]
+         LET k == IF e.kk < 0 THEN 0 ELSE IF e.kk > 16 THEN 16 ELSE e.kk
+             ss == k * k * (3 * 16 - 2 * k)                                   \* * 16^3
+             sss == k * k * k * (10 * 256 + k * (6 * k - 15 * 16))            \* * 16^5
+         IN /\ e.panic = 0
+            /\ CloseTo(e.ss, ss, 4096, 2) /\ CloseTo(e.sss, sss, 1048576, 2)
     [] OTHER -> FALSE
 =============================================================================
